@@ -168,6 +168,11 @@ def main():
     counts, miss = gen_c18_sites.generate(REPO)
     vals.update(counts)      # PEER_ID_SITES
     missing += list(miss)
+    # C17: shape of the MemoryStore, its configuration and its callers -> coq/gen/C17Tables.v (sibling script)
+    import gen_c17_tables
+    counts, miss = gen_c17_tables.generate(REPO)
+    vals.update(counts)      # C17_STORE_CALL_SITES
+    missing += list(miss)
     str_names = []
     for name, path, rx in STR_CONSTS:
         try:
